@@ -2279,6 +2279,13 @@ impl Zeroconf {
                     }
                 }
             }
+
+            // A service that could not be announced yet is waiting for probes that were
+            // created (or joined) just now, e.g. for a new name after a conflict: make
+            // sure the run loop wakes up for them.
+            for timer in dns_registry.new_timers.drain(..) {
+                self.timers.push(Reverse(timer));
+            }
         }
 
         if !invalid_intf_addrs.is_empty() {
